@@ -297,4 +297,47 @@ theorem filterM_ok {α : Type} (l : List α) (f : α → Res Bool) (g : α → B
       | some x => .ok (some x)
       | none => findRet l f) := rfl
 
+/-! ### `&str`: a list of chars whose `len()` and slice bounds count UTF-8 bytes -/
+
+/-- `str::len`: the number of BYTES of the UTF-8 encoding -/
+def strLen (s : List Char) : Nat := (s.map Char.utf8Size).foldl (· + ·) 0
+
+/-- `&s[..n]`: panics unless byte offset `n` is at most the length and falls on a char boundary -/
+def strSliceTo : List Char → Nat → Res (List Char)
+  | _, 0 => .ok []
+  | [], _ + 1 => .panic
+  | c :: rest, n + 1 =>
+    if c.utf8Size ≤ n + 1 then Res.bind (strSliceTo rest (n + 1 - c.utf8Size)) (fun r => .ok (c :: r)) else .panic
+
+/-- `&s[n..]` -/
+def strSliceFrom : List Char → Nat → Res (List Char)
+  | s, 0 => .ok s
+  | [], _ + 1 => .panic
+  | c :: rest, n + 1 => if c.utf8Size ≤ n + 1 then strSliceFrom rest (n + 1 - c.utf8Size) else .panic
+
+/-- `iter().any(p)` and the loop `for a in l { if p(a) { return true } } false` are the same computation; stated
+from the `any` form to the loop form so that the bridges can normalise both texts to the loop form -/
+theorem anyM_eq_findRet {α : Type} (l : List α) (q : α → Res Bool) :
+    anyM l q = Res.bind (findRet l (fun a => Res.bind (q a) (fun t => Res.ok (bif t then some true else none))))
+      (fun t => Res.ok (match t with | some x => x | none => false)) := by
+  induction l with
+  | nil => rfl
+  | cons a l ih =>
+    simp only [anyM, findRet_cons, Res.bind_assoc]
+    cases h : q a with
+    | panic => rfl
+    | ok b => cases b <;> simp [Res.bind, ih]
+
+/-- `iter().all(p)` and the loop `for a in l { if !p(a) { return false } } true` -/
+theorem allM_eq_findRet {α : Type} (l : List α) (q : α → Res Bool) :
+    allM l q = Res.bind (findRet l (fun a => Res.bind (q a) (fun t => Res.ok (bif t then none else some false))))
+      (fun t => Res.ok (match t with | some x => x | none => true)) := by
+  induction l with
+  | nil => rfl
+  | cons a l ih =>
+    simp only [allM, findRet_cons, Res.bind_assoc]
+    cases h : q a with
+    | panic => rfl
+    | ok b => cases b <;> simp [Res.bind, ih]
+
 end Arimaa.Rt
